@@ -311,6 +311,12 @@ def bound_method_as_closure(ctx: Ctx, maker: FuncInfo, expr: ast.AST) -> Optiona
 
     from ..engine.context import bind_call_args as _bind
 
+    if isinstance(expr, ast.Call) and not isinstance(expr.func, ast.Attribute) or (isinstance(expr, ast.Call) and ctx.r.resolve_class(maker.module, expr.func) is not None):
+        # Cls(a, b) of a class with __call__: the instance is the callable
+        kls = ctx.r.resolve_class(maker.module, expr.func)
+        if kls is None or ctx.r.method(kls, "__call__") is None:
+            return None
+        expr = ast.Attribute(value=expr, attr="__call__", ctx=ast.Load())
     if not (isinstance(expr, ast.Attribute) and isinstance(expr.value, ast.Call)):
         return None
     cls = ctx.r.resolve_class(maker.module, expr.value.func)
@@ -325,8 +331,10 @@ def bound_method_as_closure(ctx: Ctx, maker: FuncInfo, expr: ast.AST) -> Optiona
         if isinstance(st, ast.Expr) and isinstance(st.value, ast.Constant):
             continue
         tgt = st.targets[0] if isinstance(st, ast.Assign) and len(st.targets) == 1 else None
-        if not (isinstance(tgt, ast.Attribute) and isinstance(tgt.value, ast.Name) and tgt.value.id == "self" and isinstance(st.value, ast.Name) and st.value.id in init.params):
+        if not (isinstance(tgt, ast.Attribute) and isinstance(tgt.value, ast.Name) and tgt.value.id == "self"):
             return None
+        if not (isinstance(st.value, ast.Name) and st.value.id in init.params):
+            continue  # a derived field (a label, a cache): fine as long as the method does not read it (checked below)
         stores[tgt.attr] = st.value.id
     for klass in ctx.r.mro(cls):
         for other in klass.methods.values():
@@ -335,7 +343,7 @@ def bound_method_as_closure(ctx: Ctx, maker: FuncInfo, expr: ast.AST) -> Optiona
     bound = _bind(expr.value, init.params, skip_self=True)
     if any(p not in bound for p in stores.values()):
         return None
-    node = copy.deepcopy(meth.node)
+    node = copy.deepcopy(ctx.inlined(meth).node)  # static / sibling helpers of the small class spliced in
     node.args.args = node.args.args[1:] if not node.args.posonlyargs else node.args.args
     if node.args.posonlyargs:
         node.args.posonlyargs = node.args.posonlyargs[1:]
@@ -346,14 +354,22 @@ def bound_method_as_closure(ctx: Ctx, maker: FuncInfo, expr: ast.AST) -> Optiona
                 n.value = ctx.xexpand(meth, n.value, depth=2, stop=meth.params)
             return n
 
+    class Mark(ast.NodeTransformer):
+        """The method's own `self` gets a private name, so that a `self` inside a constructor argument (the factory's) is not confused with it."""
+
+        def visit_Name(self, n: ast.Name) -> ast.AST:  # noqa: N802
+            if n.id == "self":
+                n.id = "__method_self"
+            return n
+
     class Sub(ast.NodeTransformer):
         def visit_Attribute(self, n: ast.Attribute) -> ast.AST:  # noqa: N802
-            if isinstance(n.value, ast.Name) and n.value.id == "self" and n.attr in stores and isinstance(n.ctx, ast.Load):
+            if isinstance(n.value, ast.Name) and n.value.id == "__method_self" and n.attr in stores and isinstance(n.ctx, ast.Load):
                 return copy.deepcopy(bound[stores[n.attr]])
             return self.generic_visit(n)
 
-    node = Sub().visit(Inl().visit(node))
-    if any(isinstance(n, ast.Name) and n.id == "self" for n in ast.walk(node)):
+    node = Sub().visit(Mark().visit(Inl().visit(node)))
+    if any(isinstance(n, ast.Name) and n.id == "__method_self" for n in ast.walk(node)):
         return None
     ast.fix_missing_locations(node)
     view = FuncInfo(maker.module if meth.module is maker.module else meth.module, f"{maker.qualname}.<locals>.{cls.name}.{meth.name}", node, None, maker)
